@@ -100,6 +100,35 @@ def gen_setops(ops, with_trees=False):
                         cases += membership_cases([[op, a, b]], probes)
                     else:
                         cases.append(dump([op, a, b]))
+        # intervals whose endpoints a positional packing with radix m would confuse, for every power of two m: (0,m,0) / (1,0,0), (1,0,m) / (1,1,0)
+        for m in POWERS:
+            x, y, z, w = vtext(V(0, m, 0)), vtext(V(1, 0, 0)), vtext(V(1, 0, m)), vtext(V(1, 1, 0))
+            pr = [enc_version(v) for v in (V(0, m, 0), V(1, 0, 0), V(1, 0, m), V(1, 1, 0), V(0, m - 1, 9), V(0, m, 1), V(1, 0, m + 1), V(1, 0, m - 1), V(0, 0, 0), V(2, 0, 0))]
+            rs = [E_parse(t) for t in ('<=' + x, '>=' + y, '>=%s <=%s' % (x, y), '>%s <%s' % (x, y), '=' + x, '=' + y, '<=' + z, '>=' + w, '>%s <%s' % (z, w))]
+            for a in rs:
+                cases.append(dump(['within', a, pr])); cases.append(dump(['sat', a, pr]))
+                for b in rs:
+                    for op in ops:
+                        cases.append(dump([op, a, b]))
+                        if op in ('isect', 'diff'):
+                            cases.append(dump(['within', [op, a, b], pr])); cases.append(dump(['sat', [op, a, b], pr]))
+        if 'diff' in ops:
+            # one interval minus THREE alternatives in every order and nesting (points, closed and half-open intervals over four inner versions):
+            # the pieces left by the first two alternatives meet the third -- state that exists only inside one call of Range::difference
+            pts = ['1.%d.0' % i for i in range(6)]
+            I3 = ['=' + pts[i] for i in range(1, 5)] + ['>=%s <=%s' % (pts[i], pts[j]) for i in range(1, 5) for j in range(i + 1, 5)] + \
+                 ['>%s <%s' % (pts[1], pts[4]), '>=%s <%s' % (pts[1], pts[3])]
+            pr3 = [V(1, i, j) for i in range(6) for j in (0, 1)] + [V(0, 9, 9), V(2, 0, 0)]
+            for at in ('>=%s <=%s' % (pts[0], pts[5]), '*'):
+                a = E_parse(at)
+                cases += membership_cases([a], pr3)
+                for t1 in I3:
+                    for t2 in I3:
+                        for t3 in I3:
+                            if t1 == t2 or t2 == t3 or t1 == t3: continue
+                            b = E_parse(t1 + ' || ' + t2 + ' || ' + t3)
+                            cases.append(dump(['diff', a, b])); cases += membership_cases([['diff', a, b], b], pr3)
+                            if 'isect' in ops: cases.append(dump(['isect', a, b])); cases += membership_cases([['isect', a, b]], pr3)
         if 'allows_all' in ops:
             # receivers made of two alternatives that meet at one version (with every combination of inclusivity: a hole, a junction,
             # an overlap at a point) against every single interval: what a coalescing "optimisation" of the receiver would get wrong
@@ -530,6 +559,16 @@ def gen_minv(tier, rng):
         else:
             e = random_tree(rng, valid, rng.randint(1, 2))
         cases.append(dump(['minv', e])); cases.append(dump(['sat', e, pv2]))
+    # every ordered pair of alternatives over a release, four prereleases of its next patch, that patch and the one after: the order of the
+    # alternatives, and which of them holds the minimum, must not matter (pruning "optimisations" get this wrong for one arrangement)
+    W = [V(0, 0, 0), V(0, 0, 1, (0,)), V(0, 0, 1, ('a',)), V(0, 0, 1, ('a', 0)), V(0, 0, 1, ('b',)), V(0, 0, 1), V(0, 0, 2)]
+    pw_ = [enc_version(v) for v in probe_versions(W)]
+    ivW = [e for (_, e) in interval_texts(W) if e[0] != 'any' and interval_nonempty_text(e)]
+    npairs_w = 0
+    for a in ivW:
+        for b in ivW:
+            e = E_parse(str(a[1]) + ' || ' + str(b[1])); npairs_w += 1
+            cases.append(dump(['minv', e])); cases.append(dump(['sat', e, pw_]))
     # bounds whose text is as long as MAX_LENGTH allows and longer (Range::parse has no length limit; the successor of an
     # exclusive prerelease bound is one identifier longer than the bound)
     nlong = 0
@@ -540,7 +579,7 @@ def gen_minv(tier, rng):
         for txt in ('>1.0.0-%s', '>=1.0.0-%s', '>1.0.0-%s || >=5.0.0', '>=5.0.0 || >1.0.0-%s', '>1.0.0-%s <1.0.0-b', '<1.0.0-%s', '>1.0.0-%s.0', '>1.0.0-%s <=1.0.0-%s.0'):
             e = E_parse(txt.replace('%s', t)); nlong += 1
             cases.append(dump(['minv', e])); cases.append(dump(['sat', e, pl]))
-    return cases, {'exhaustive': True, 'intervals': len(ivs), 'random': n, 'probe_versions': len(probes2), 'long_bounds': nlong,
+    return cases, {'exhaustive': True, 'intervals': len(ivs), 'random': n, 'probe_versions': len(probes2), 'long_bounds': nlong, 'ordered_pairs_of_alternatives': npairs_w,
                    'what': 'min_version of every one-interval range over a %d-version universe (exclusive lower bounds directly under the upper bound, unbounded-below alternatives that are '
                            'empty or prerelease-only, prerelease bounds), of %d random multi-alternative ranges and set-operation results; compared against satisfies() on %d candidate versions'
                            % (len(univ), n, len(probes2))}
